@@ -9,7 +9,7 @@ ids="$*"; [ -z "$ids" ] && ids=$(ls "$HERE/seeded" | grep -- '-m')
 for id in $ids; do
   prop=$(jq -r '.breaks // empty' "$HERE/seeded/$id/meta.json" 2>/dev/null); [ -z "$prop" ] && prop=${id%%-*}
   git -C "$W" checkout -q -- . && git -C "$W" apply "$HERE/seeded/$id/patch.diff" || { echo "$id APPLY-FAILED" >> sweep.out; continue; }
-  out=$(cd "$HERE" && VERIF_REPO="$W" ./check "$prop" --tier quick 2>&1); rc=$?
+  out=$(cd "$HERE" && VERIF_NO_EVIDENCE=1 VERIF_REPO="$W" ./check "$prop" --tier quick 2>&1); rc=$?
   n=$(echo "$out" | grep -c '^VIOLATION')
   cl=$(echo "$out" | grep -m1 '^  clause=' | cut -c1-120)
   echo "$id check=$prop rc=$rc violations=$n $cl" >> sweep.out
